@@ -483,6 +483,146 @@ fn main() {
       cx.encoders(&ph, &uh, &rules, true, &case);
     }
   }
+  // ---- a custom (extension) parameter NAME shared between the two headers is shared whatever the two VALUES are: every
+  // JSON value kind, including the "empty" ones (null, false, 0, "", [], {}), in every combination and each order. A member
+  // whose value is null is still a member of the serialized header. Controls: the same values under two different names,
+  // and in one header only, violate no rule. Both routes: JSON text (decoders, and encoders via deserialized headers) and
+  // headers built with the setters + set_custom (encoders).
+  {
+    use std::collections::BTreeMap;
+    const ALL_VALUES: &[&str] = &["null", "false", "0", "\"\"", "[]", "{}", "\"a\"", "1", "true", "[null]", "{\"k\":null}"];
+    const FEW_VALUES: &[&str] = &["null", "\"a\"", "{}"];
+    // "Zz" sorts before "alg"/"kid", the others after
+    const ALL_NAMES: &[&str] = &["ext", "x-n", "Zz"];
+    let (values, names) = if scale >= 1000 { (ALL_VALUES, ALL_NAMES) } else { (FEW_VALUES, &ALL_NAMES[..1]) };
+    // one header as an ordered member list (name, JSON text of the value)
+    let text = |members: &[(&str, &str)], reversed: bool| -> String {
+      let mut m: Vec<String> = members.iter().map(|(k, v)| format!("\"{}\":{}", k, v)).collect();
+      if reversed {
+        m.reverse();
+      }
+      format!("{{{}}}", m.join(","))
+    };
+    let built = |members: &[(&str, &str)]| -> JwsHeader {
+      let mut h = JwsHeader::new();
+      let mut m: BTreeMap<String, serde_json::Value> = BTreeMap::new();
+      for (k, v) in members {
+        match *k {
+          "alg" => h.set_alg(identity_jose::jws::JwsAlgorithm::EdDSA),
+          "kid" => h.set_kid("k-1"),
+          _ => {
+            m.insert(k.to_string(), serde_json::from_str(v).expect("harness value text"));
+          }
+        }
+      }
+      if !m.is_empty() {
+        h.set_custom(m);
+      }
+      h
+    };
+    let mut k: u64 = 0;
+    for (ni, name) in names.iter().enumerate() {
+      let other = ALL_NAMES[(ni + 1) % ALL_NAMES.len()];
+      for (pi, pv) in values.iter().enumerate() {
+        for (ui, uv) in values.iter().enumerate() {
+          idx += 1;
+          k += 1;
+          if !args.mine(idx) {
+            continue;
+          }
+          let variant = k % 3;
+          // protected: alg + the custom parameter (+ a further custom one); unprotected: the custom parameter (+ kid / + a further custom one)
+          let mut prot: Vec<(&str, &str)> = vec![("alg", "\"EdDSA\"")];
+          if variant == 2 {
+            prot.push(("aa", "2"));
+          }
+          let name: &'static str = name;
+          let (pv, uv): (&'static str, &'static str) = (*pv, *uv);
+          prot.push((name, pv));
+          let unprot_with = |n: &'static str| -> Vec<(&'static str, &'static str)> {
+            let mut u: Vec<(&str, &str)> = Vec::new();
+            if variant == 1 {
+              u.push(("kid", "\"k-1\""));
+            }
+            if variant == 2 {
+              u.push(("zz", "1"));
+            }
+            u.push((n, uv));
+            u
+          };
+          let shared = unprot_with(name);
+          let apart = unprot_with(other);
+          let mut rows: Vec<(Option<&[(&str, &str)]>, Option<&[(&str, &str)]>, Vec<&'static str>)> =
+            vec![(Some(&prot), Some(&shared), vec!["headers-share-parameter"]), (Some(&prot), Some(&apart), vec![])];
+          let alg_only: Vec<(&str, &str)> = vec![("alg", "\"EdDSA\"")];
+          if ui == 0 {
+            rows.push((Some(&prot), None, vec![]));
+          }
+          if pi == 0 {
+            rows.push((Some(&alg_only), Some(&shared), vec![]));
+          }
+          let with_null = pv == "null" || uv == "null";
+          for (p, u, rules) in rows {
+            cx.rep.inc("custom_value_rows");
+            if with_null {
+              cx.rep.inc("custom_value_rows_with_null");
+            }
+            if !rules.is_empty() {
+              cx.rep.inc("shared_custom_name_value_rows");
+              if with_null {
+                cx.rep.inc("shared_custom_name_null_value_rows");
+              }
+            }
+            // JSON route
+            let rev = k % 2 == 1;
+            cx.run_pair(idx, p.map(|m| text(m, rev)), u.map(|m| text(m, !rev)), rules.clone(), true, true);
+            // setter route
+            let ph = p.map(|m| built(m));
+            let uh = u.map(|m| built(m));
+            let case = json!({"headers_built_with": "JwsHeader::new + setters / set_custom",
+              "protected": ph.as_ref().map(|h| serde_json::to_value(h).unwrap_or_default()), "unprotected": uh.as_ref().map(|h| serde_json::to_value(h).unwrap_or_default())});
+            cx.encoders(&ph, &uh, &rules, true, &case);
+          }
+        }
+      }
+    }
+    // reserved names smuggled in through the custom map with a null (or other empty) value: still a member of that header on the wire
+    let prot_alg = built(&[("alg", "\"EdDSA\"")]);
+    let raw = |k: &str, v: &str| -> JwsHeader {
+      let mut h = JwsHeader::new();
+      let mut m: BTreeMap<String, serde_json::Value> = BTreeMap::new();
+      m.insert(k.to_string(), serde_json::from_str(v).expect("harness value text"));
+      h.set_custom(m);
+      h
+    };
+    let raw_alg = |k: &str, v: &str| -> JwsHeader {
+      let mut h = raw(k, v);
+      h.set_alg(identity_jose::jws::JwsAlgorithm::EdDSA);
+      h
+    };
+    for v in ["null", "false", "[]", "\"\""] {
+      let rows: Vec<(&str, Option<JwsHeader>, Option<JwsHeader>, Vec<&'static str>)> = vec![
+        ("unprotected custom crit", Some(prot_alg.clone()), Some(raw("crit", v)), vec!["crit-outside-protected"]),
+        ("unprotected custom b64", Some(prot_alg.clone()), Some(raw("b64", v)), vec!["b64-outside-protected"]),
+        ("unprotected custom alg", Some(prot_alg.clone()), Some(raw("alg", v)), vec!["headers-share-parameter"]),
+        ("protected custom kid, unprotected kid", Some(raw_alg("kid", v)), Some(built(&[("kid", "")])), vec!["headers-share-parameter"]),
+        ("protected kid, unprotected custom kid", Some(built(&[("alg", ""), ("kid", "")])), Some(raw("kid", v)), vec!["headers-share-parameter"]),
+        ("protected custom x-only, unprotected kid (legal)", Some(raw_alg("x-only", v)), Some(built(&[("kid", "")])), vec![]),
+        ("unprotected-only custom crit", None, Some(raw("crit", v)), vec!["crit-outside-protected"]),
+        ("unprotected-only custom b64", None, Some(raw("b64", v)), vec!["b64-outside-protected"]),
+      ];
+      for (what, ph, uh, rules) in rows {
+        idx += 1;
+        if !args.mine(idx) {
+          continue;
+        }
+        cx.rep.inc("setter_built_reserved_name_value_rows");
+        let case = json!({"headers_built_with": "JwsHeader::new + setters / set_custom", "row": what,
+          "protected": ph.as_ref().map(|h| serde_json::to_value(h).unwrap_or_default()), "unprotected": uh.as_ref().map(|h| serde_json::to_value(h).unwrap_or_default())});
+        cx.encoders(&ph, &uh, &rules, true, &case);
+      }
+    }
+  }
   cx.rep.note("table_rows", json!(idx));
   cx.rep.finish();
 }
